@@ -430,7 +430,22 @@ func (g *PGen) mayFail(d int) *Node {
 }
 
 func (g *PGen) errForm(d int) *Node {
-	switch g.r.Intn(4) {
+	switch g.r.Intn(6) {
+	case 4:
+		// the call is refused while its arguments are being bound: a builtin
+		// function, special operator, builtin macro or lambda given the wrong
+		// number of arguments or a malformed keyword list
+		e := g.E(d - 1)
+		return PickNode(g.r,
+			Call("car"), Call("car", e, I(2)), Call("cons", e), Call("nth", Q(L(I(1))), I(0), e),
+			Call("if"), Call("if", e), Call("quote"), Call("let"), Call("lambda"),
+			Call("defun"), Call("thread-first"),
+			L(L(A("lambda"), L(A("a")), A("a"))), L(L(A("lambda"), L(A("a")), A("a")), e, e),
+			L(L(A("lambda"), L(A("&key"), A("k")), A("k")), A(":zz"), e),
+			Call("get-default", e), Call("sorted-map", A(":a")))
+	case 5:
+		return Call("funcall", A("'car"), g.E(d-1), g.E(d-1)) // refused binding reached through funcall
+	
 	case 0:
 		return Call("if", g.C(d-1), g.E(d-1), Call("error", QS(PickStr(g.r, condNames[:3])), g.E(d-1)))
 	case 1:
